@@ -16,6 +16,7 @@
 #include <fcppt/container/buffer/read_from.hpp>
 #include <fcppt/container/buffer/read_from_opt.hpp>
 #include <fcppt/container/buffer/to_raw_vector.hpp>
+#include <fcppt/container/dynamic_array.hpp>
 #include <fcppt/container/raw_vector/comparison.hpp>
 #include <fcppt/container/raw_vector/object.hpp>
 #include <fcppt/io/read_chars.hpp>
@@ -1145,6 +1146,54 @@ static void raw_vector_comparison_types()
 // counts from {0,1,2,3,5} (optionally preceded by one plain unformatted read on the stream) on texts of length 0..6.
 // Reference: a cursor into the text; a request for more than what is left yields nothing and leaves the stream failed,
 // after which every request yields nothing; a request for n <= remaining characters yields exactly those n.
+// ---------------------------------------------------------------- dynamic_array (the uninitialised block used by read_chars)
+// dynamic_array<T,A>(n): exactly one block of n elements from the allocator, [data(), data_end()) is that block
+// (every element writable and readable back), size() == n, and the block goes back to the allocator once with the
+// same size.  All n of the growth lattice, both constructors, const and non-const accessors.
+static void dynamic_array_lattice()
+{
+  using da = fcppt::container::dynamic_array<int, counting_alloc<int>>;
+  for (std::size_t n : size_lattice())
+    for (int ctor = 0; ctor < 2; ++ctor)
+    {
+      if (!vrt::begin("dynamic_array", n, ctor))
+        continue;
+      vrt::nontrivial(n > 0);
+      std::size_t const live_before = reg().live.size();
+      std::uint64_t const allocs_before = reg().allocs;
+      {
+        std::optional<da> holder;
+        if (ctor == 0)
+          holder.emplace(n);
+        else
+          holder.emplace(n, counting_alloc<int>());
+        da &a = *holder;
+        da const &ca = a;
+        VRT_CHECK(a.size() == n && ca.size() == n, "dynamic_array:size", "size() %zu, constructed with %zu", a.size(), n);
+        if (reg().allocs != allocs_before + 1)
+          vrt::count("info:dynamic_array:not_exactly_one_allocation", 1); // not demanded by the property
+        auto it = reg().live.find(a.data());
+        bool const block_ok = it != reg().live.end() && it->second == n;
+        VRT_CHECK(block_ok, "dynamic_array:storage_block", "data() is not a live block of %zu elements", n);
+        VRT_CHECK(ca.data() == a.data() && ca.data_end() == a.data_end(), "dynamic_array:const_accessors", "const and non-const accessors disagree");
+        VRT_CHECK(a.data_end() - a.data() == static_cast<std::ptrdiff_t>(n), "dynamic_array:data_end", "data_end() - data() = %td, size %zu",
+                  a.data_end() - a.data(), n);
+        if (block_ok && a.data_end() - a.data() == static_cast<std::ptrdiff_t>(n))
+        {
+          int k = 0;
+          for (int *q = a.data(); q != a.data_end(); ++q)
+            *q = 3 * k++ + 1;
+          k = 0;
+          bool same = true;
+          for (int const *q = ca.data(); q != ca.data_end(); ++q)
+            same = same && *q == 3 * k++ + 1;
+          VRT_CHECK(same, "dynamic_array:contents", "elements written through data() read back differently");
+        }
+      }
+      VRT_CHECK(reg().live.size() == live_before, "dynamic_array:leak", "%zu blocks live after destruction, %zu before", reg().live.size(), live_before);
+    }
+}
+
 static void read_chars_histories()
 {
   static int const counts[] = {0, 1, 2, 3, 5};
@@ -1248,5 +1297,6 @@ int main(int argc, char **argv)
   vrt::shard("buffer_growth_lattice", [] { buffer_growth(); });
   vrt::shard("raw_vector_comparison_types", [] { raw_vector_comparison_types(); });
   vrt::shard("read_chars_histories", [] { read_chars_histories(); });
+  vrt::shard("dynamic_array_lattice", [] { dynamic_array_lattice(); });
   return vrt::run(argc, argv);
 }
